@@ -35,14 +35,14 @@ type siteInfo struct {
 }
 
 var (
-	sites    []siteInfo
-	notes    []string
-	counts   = map[string]int{}
-	rootDir  string
-	fresh    int
-	noYield  = map[ast.Stmt]bool{}
-	fsetG    *token.FileSet
-	curFile  string
+	sites   []siteInfo
+	notes   []string
+	counts  = map[string]int{}
+	rootDir string
+	fresh   int
+	noYield = map[ast.Stmt]bool{}
+	fsetG   *token.FileSet
+	curFile string
 )
 
 func sel(x, name string) *ast.SelectorExpr {
@@ -349,6 +349,8 @@ var noYieldBlocks = map[*ast.BlockStmt]bool{}
 // waiting for one of them is seen as blocked instead of stalling the simulation; no yields, no other rewrites.
 var locksOnly bool
 
+var ctorFound, ctorOK bool
+
 func driverRowsInterface(pkg *packages.Package) *types.Interface {
 	imp := pkg.Imports["database/sql/driver"]
 	if imp == nil || imp.Types == nil {
@@ -494,6 +496,70 @@ func processFile(pkg *packages.Package, f *ast.File, path string) ([]byte, bool,
 	return buf.Bytes(), true, nil
 }
 
+// serverCtor finds the call that registers the gRPC service in a file of the CLI package and returns the source
+// of a function that constructs the service value exactly as that call does (R4b). The in-process worlds use it
+// instead of a struct literal of their own: a tree that adds a field which needs initialising (a semaphore, a
+// pool) would otherwise be driven with a half-built handler. ok=false: the expression uses other local variables
+// than the index and cannot be lifted out of its function.
+func serverCtor(pkg *packages.Package, f *ast.File) (src string, found, ok bool) {
+	info := pkg.TypesInfo
+	var call *ast.CallExpr
+	ast.Inspect(f, func(n ast.Node) bool {
+		if c, isCall := n.(*ast.CallExpr); isCall && len(c.Args) == 2 {
+			if se, isSel := c.Fun.(*ast.SelectorExpr); isSel && se.Sel.Name == "RegisterQueryServiceServer" {
+				call = c
+			}
+		}
+		return call == nil
+	})
+	if call == nil {
+		return "", false, false
+	}
+	names := map[string]string{} // import path -> name used in this file
+	for _, im := range f.Imports {
+		path := strings.Trim(im.Path.Value, "\"")
+		if im.Name != nil {
+			names[path] = im.Name.Name
+		} else if ip := pkg.Imports[path]; ip != nil {
+			names[path] = ip.Name
+		}
+	}
+	qual := func(p *types.Package) string {
+		if n, has := names[p.Path()]; has {
+			return n
+		}
+		return p.Name()
+	}
+	e := call.Args[1]
+	var idxVar *types.Var
+	good := true
+	ast.Inspect(e, func(n ast.Node) bool {
+		id, isID := n.(*ast.Ident)
+		if !isID {
+			return true
+		}
+		v, isVar := info.Uses[id].(*types.Var)
+		if !isVar || v.IsField() || v.Parent() == nil || v.Parent() == pkg.Types.Scope() || v.Parent() == types.Universe {
+			return true
+		}
+		if strings.HasSuffix(types.TypeString(v.Type(), nil), "updog.Index") && (idxVar == nil || idxVar == v) {
+			idxVar = v
+			return true
+		}
+		good = false
+		return true
+	})
+	if !good || idxVar == nil {
+		return "", true, false
+	}
+	var eb, xb bytes.Buffer
+	if format.Node(&eb, pkg.Fset, e) != nil || format.Node(&xb, pkg.Fset, call.Fun.(*ast.SelectorExpr).X) != nil {
+		return "", true, false
+	}
+	return fmt.Sprintf("\n// VerifNewServer builds the gRPC service value exactly as the program registers it (generated, rewrite R4b).\nfunc VerifNewServer(%s %s) %s.QueryServiceServer {\n\treturn %s\n}\n",
+		idxVar.Name(), types.TypeString(idxVar.Type(), qual), xb.String(), eb.String()), true, true
+}
+
 func main() {
 	root := flag.String("root", "", "scratch copy of the module to rewrite in place")
 	sitesOut := flag.String("sites", "", "write the yield-site table here")
@@ -541,6 +607,16 @@ func main() {
 			if strings.HasSuffix(path, "_test.go") || strings.HasSuffix(path, ".pb.go") {
 				continue
 			}
+			rel0, _ := filepath.Rel(abs, filepath.Dir(path))
+			ctor := ""
+			if p.Name == "main" && rel0 == *cli {
+				if src, found, ok := serverCtor(p, f); found {
+					ctorFound = true
+					if ok {
+						ctor, ctorOK = src, true
+					}
+				}
+			}
 			src, changed, err := processFile(p, f, path)
 			if err != nil {
 				fmt.Fprintln(os.Stderr, "instrument:", path, err)
@@ -562,6 +638,7 @@ func main() {
 				// R4: importable twin
 				out := bytes.Replace(src, []byte("package main"), []byte("package verifcli"), 1)
 				out = bytes.Replace(out, []byte("func main()"), []byte("func Main()"), 1)
+				out = append(out, []byte(ctor)...)
 				dst := filepath.Join(abs, "verifcli")
 				_ = os.MkdirAll(dst, 0o755)
 				if err := os.WriteFile(filepath.Join(dst, filepath.Base(path)), out, 0o644); err != nil {
@@ -570,7 +647,16 @@ func main() {
 				}
 			}
 		}
-		_ = isCLI
+		if isCLI && !ctorOK {
+			// no liftable registration call: the worlds that need the handler in-process say so (harness
+			// trouble) instead of guessing how the program builds it
+			stub := "package verifcli\n\nimport (\n\t\"github.com/akrennmair/updog\"\n\tproto \"github.com/akrennmair/updog/proto/updog/v1\"\n)\n\n// VerifNewServer: the instrumenter found no service registration it could lift (found=" + fmt.Sprint(ctorFound) + ").\nfunc VerifNewServer(idx *updog.Index) proto.QueryServiceServer { return nil }\n"
+			_ = os.WriteFile(filepath.Join(abs, "verifcli", "zz_verif_ctor.go"), []byte(stub), 0o644)
+			notes = append(notes, "R4b: service constructor not lifted; in-process server worlds will report harness trouble")
+		}
+		if isCLI && ctorOK {
+			counts["R4b_server_ctor"] = 1
+		}
 	}
 	if *deps != "" {
 		locksOnly = true
